@@ -248,6 +248,8 @@ PROPS["C12"] = dict(
     quick_n=400, thorough_n=6000,
     rule="repositories built from a seed: 2..4 real tables (3..300 rows, variants sharing blocks), DAGs of 1..8 commits with arbitrary timestamps, 0..3 refs of every kind "
          "(heads, tags, remotes, txs, nested names), some deleted again, shallow commits (table object absent, with or without its index/profile), a stray missing block; "
+         "1 in 3: some of the tables committed again under a primary key extended by further columns (same rows, same order: every block shared, every block index another object), "
+         "about half of these with a history whose commits alternate between the two keys; 1 in 5: 1..2 refs of any kind whose commit is not stored (written and taken away again: never arrived), which root nothing; "
          "prune.Prune run twice on a mock object store + SQLite ref store; key sets before/after and full read-back of every surviving table; "
          "non-trivial = at least one commit removed and one kept; distinct = distinct (op, input)",
     modelled="pkg/prune/prune.go (findCommitsToRemove, pruneTables, Prune) over CommitsQueue",
